@@ -493,9 +493,10 @@ class Census(Monitor):
                     if k in ('handler', 'proc', 'source'):
                         ctx.require(d._part is None or d._output is None, 'single-slot device holds two parts', n)
                 if k == 'buffer':
-                    for p in d.stored_parts:
+                    stored_now = ctx.real(lambda: list(d.stored_parts))
+                    for p in stored_now:
                         put(p, f'{n}.buffer')
-                    ctx.require(d.level() == sum(len(leaves(p)) for p in d.stored_parts),
+                    ctx.require(d.level() == sum(len(leaves(p)) for p in stored_now),
                                 'the buffer reports a number of parts inside it that differs from the parts it stores', n)
                 if k == 'batcher' and d._in_progress_batch is not None:
                     put(d._in_progress_batch, f'{n}.in_progress')
@@ -600,7 +601,7 @@ class BufferMon(Monitor):
         w, ctx = self.w, self.ctx
         with ctx.notrace():
             for d in w.devices_of('buffer'):
-                stored = d.stored_parts
+                stored = ctx.real(lambda: list(d.stored_parts))
                 n_leaves = sum(len(leaves(p)) for p in stored)
                 ctx.require(d.level() == n_leaves, 'buffer level != number of stored parts', d.name)
                 ctx.require(n_leaves <= d.capacity, 'buffer stores more than its capacity', d.name)
@@ -709,7 +710,7 @@ def run(shape, args, ctx):
     from engine.ctx import PropertyViolation
     world = World(ctx, shape['spec'], args)
     mons = [MONITORS[m] for m in shape['monitors']]
-    if shape.get('prop') not in ('C03', 'C13'):
+    if shape.get('prop') not in ('C03', 'C13', 'C06'):
         run_world(world, mons)
         return
     # C03 owns "a finite-horizon run of a well-posed model always returns" (DESIGN 4.7); in the C13 scenarios an
@@ -726,8 +727,9 @@ def run(shape, args, ctx):
                 detail = ' | '.join(x.strip() for x in tb)[-600:]
             except Exception:
                 detail = type(e).__name__
-        ctx.fail('run did not return: an exception escaped the simulator' if shape.get('prop') == 'C03' else
-                 'machine acted while shut down / in an invalid state: an exception escaped the simulator', detail)
+        ctx.fail({'C03': 'run did not return: an exception escaped the simulator',
+                  'C06': 'a cycle timer fired in an invalid state: an exception escaped the simulator'}.get(
+                      shape.get('prop'), 'machine acted while shut down / in an invalid state: an exception escaped the simulator'), detail)
 
 
 # =====================================================================================================
